@@ -21,9 +21,9 @@ import (
 	"go/constant"
 	"go/token"
 	"go/types"
+	"regexp"
 	"runtime"
 	"sort"
-	"regexp"
 	"strconv"
 	"strings"
 
@@ -1186,6 +1186,13 @@ func (m *Machine) binop(st *State, x *ssa.BinOp, a, b AV) AV {
 	if a.K == KUnk || b.K == KUnk {
 		return Unk
 	}
+	// x + 0, 0 + x, x - 0 are x
+	if (op == token.ADD || op == token.SUB) && b.K == KInt && b.I == 0 && a.K == KSym {
+		return a
+	}
+	if op == token.ADD && a.K == KInt && a.I == 0 && b.K == KSym {
+		return b
+	}
 	// symbolic
 	switch op {
 	case token.EQL, token.NEQ:
@@ -1508,6 +1515,26 @@ func (m *Machine) doCall(st *State, fr *Frame, call ssa.CallInstruction) bool {
 			return false
 		}
 		return true
+	}
+	// a table from words to constants written as a function (switch over a string parameter): looked up like a table —
+	// evaluated for a known word, one opaque result for a word known by name only (no path per case)
+	if callee != nil && len(args) == 1 && m.P.InModule(callee) {
+		if ws := m.P.WordSwitch(callee); ws != nil {
+			switch args[0].K {
+			case KStr:
+				v, ok := ws.Cases[args[0].S]
+				if !ok {
+					v = ws.Default
+				}
+				m.Model.Instr(m, st, call, args)
+				bind(st, v)
+				return true
+			case KSym:
+				m.Model.Instr(m, st, call, args)
+				bind(st, Sym("table:"+m.P.FuncKey(callee)+"["+args[0].S+"]"))
+				return true
+			}
+		}
 	}
 	// default: inline module functions
 	if callee != nil && callee.Blocks != nil && m.P.InModule(callee) && len(st.Frames) < m.MaxDepth && m.Inline(callee) && !m.onStack(st, callee) {
